@@ -74,6 +74,11 @@ Definition dPG : dec pgobj :=
 
 Inductive op := OEv (e : event) | OSnap.
 
+(* outcome of the API side of a bind: 1 = bound; 0 = Binder.Bind fails; 2 = a pre-binder
+   fails and the pod status update succeeds; 3 = a pre-binder fails and the status update fails *)
+Definition dFault : dec bool :=
+  let* x := dZ in if (x <? 0) || (3 <? x) then fail else ret (x =? 1).
+
 Definition dOp : dec op :=
   let* c := dZ in
   match c with
@@ -87,7 +92,8 @@ Definition dOp : dec op :=
   | 8 => let* q := dPos in ret (OEv (EQueueDel q))
   | 9 => ret (OEv EDrainCleanup)
   | 10 => ret (OEv EDrainResync)
-  | 11 => let* j := dPos in let* t := dPos in let* n := dPos in let* ok := dBool in ret (OEv (EBind j t n ok))
+  | 11 => let* j := dPos in let* t := dPos in let* n := dPos in let* ok := dFault in ret (OEv (EBind j t n ok))
+  | 14 => let* i := dPos in ret (OEv (EApiGone i))
   | 12 => let* j := dPos in let* t := dPos in let* ok := dBool in ret (OEv (EEvict j t ok))
   | 13 => ret OSnap
   | _ => fail
@@ -142,7 +148,7 @@ Definition dCache : dec cache :=
   let* _ := tag (-112) in let* ns := dList dNodeFull in
   let* _ := tag (-113) in let* nl := dList dPos in let* qs := dSet in
   let* _ := tag (-114) in let* eq := dList (dPair dPos dPos) in let* dq := dList (dPair dPos dZ) in
-  ret (mkCache ∅ (heap_of ts ns)
+  ret (mkCache ∅ ∅ (heap_of ts ns)
                (list_to_map (map (fun cj => (j_id (cj_job cj), cj)) js))
                (list_to_map (map (fun n => (n_id n, n)) ns)) nl qs eq dq).
 
